@@ -22,7 +22,7 @@ Builders whose statement FAILS on the current code have a `…_wrong` theorem
 
 NOT proved here (validated by the oracle and, for the gate lists, by T4 only):
 Kogge-Stone adder/subtractor, array / Karatsuba / Wallace multipliers, all
-dividers, NewIndex, Hamming on the GMW target (Kogge-Stone adders).
+dividers, Hamming on the GMW target (Kogge-Stone adders).
 -/
 import MpcVerif.Proofs.BuildersSpec
 import MpcVerif.Proofs.BuildersBridge
@@ -330,6 +330,34 @@ theorem C07_bittest (pro : Bool) (x y : List Bool) (index : Nat) (hw : 0 < x.len
     exact ⟨hb, by rw [hv, hxv]⟩
 
 example : evalBuilder (fun a _ => bitSetTest a 2) false [false, false, true] [false] = [true] := by decide
+
+/-! ## Array index -/
+
+/-- `NewIndex(size, array, index, out)` for every element size `size ≥ 1`, every
+element count `n ≥ 1`, every index width `≥ 1`: the result is element
+`index mod 2^bits` of the array (split into `size`-bit elements), where `bits`
+is the number of index bits the builder uses (`2^bits ≥ n`; index bits above
+that are ignored, missing index bits read 0), and all zeros when that element
+number is outside the array. -/
+theorem C07_index (pro : Bool) (size n : Nat) (arr idx : List Bool) (hal : arr.length = n * size)
+    (hsz : 0 < size) (hn : 0 < n) (hil : 0 < idx.length) :
+    evalBuilder (newIndex size) pro arr idx =
+      (chunks size n arr).getD (toNat (idx.take (indexBits n n 1 2).1)) (List.replicate size false) := by
+  refine evalBuilder_spec (R := fun z => z =
+    (chunks size n arr).getD (toNat (idx.take (indexBits n n 1 2).1)) (List.replicate size false)) ?_ pro (by omega)
+  intro s inp aw iw hwf ha hi hav hiv
+  have hla : aw.length = n * size := by rw [← hal, ← hav]; simp
+  have hli : 0 < iw.length := by rw [← hiv] at hil; simpa using hil
+  refine (newIndex_spec hwf size n ha hi hla hsz hn hli).mono ?_
+  intro z s' _ ⟨hb, _, hv⟩
+  exact ⟨hb, by rw [hv, hav, hiv]⟩
+
+-- 3 elements of 2 bits, index 2 (binary 01 little endian = [false, true]) selects the third element
+example : evalBuilder (newIndex 2) true [true, false, false, true, true, true] [false, true] = [true, true] := by
+  decide +kernel
+-- index 3 is outside the 3-element array: zero
+example : evalBuilder (newIndex 2) true [true, false, false, true, true, true] [true, true] = [false, false] := by
+  decide +kernel
 
 /-! ## Hamming distance -/
 
